@@ -2,8 +2,15 @@
  * C07 -- the heap always yields a maximum element; the tree stays complete.
  * (Also used by C15 via mode "clear".)
  *
- * cases: [0, nscopes)       closure scopes (every op in every reachable state)
- *        [nscopes, ...)     seeded random histories with fill/drain phases
+ * cases: [0, nscopes)               closure scopes (every op in every reachable state)
+ *        [nscopes, nscopes+nbig)    large heaps: grow to > 2^17 elements and drain, O(1) model checks
+ *                                   per call, full walker around every power of two (mode "" only)
+ *        [nscopes+nbig, ...)        seeded random histories with fill/drain phases
+ *
+ * Heap objects of one scope are configured differently (order, comparator
+ * function, priv, embedded node member): swap must exchange contents AND
+ * configuration, so the configuration belongs to the model a heap object
+ * currently carries.
  *
  * Oracle after every call: reference multiset of held element addresses per
  * heap (get/pop NULL iff empty, returned address is a held element of maximal
@@ -18,11 +25,10 @@
 #include <stdio.h>
 
 #define MAXH 3
-#define MAXE 1100
+#define MAXE 141000
 #define MAGIC 0x4ea9e1e5u
-#define NODE_OFF offsetof(struct elem, node)
 static unsigned init_toggle;
-#define HTAB 4096
+#define HTAB (1 << 19)
 
 struct elem {
     uint32_t magic;
@@ -34,10 +40,23 @@ struct elem {
     int nextfree, hnext;
     uint64_t pad0;
     struct cstl_heap_node node;
+    uint64_t padm;
+    struct cstl_heap_node node2;
     uint64_t pad1;
 };
+#define PADV 0x5e5e5e5e5e5e5e5eull
 
-struct cfg { int nh, nk, np, maxlen, cmpscale; };
+/* configuration of the heap that model m describes (initially heap object m) */
+struct hconf { int dir; int nodesel; };
+static const struct hconf conf[MAXH] = {
+    { +1, 0 },          /* greatest key on top, priv A, linked through .node */
+    { -1, 1 },          /* REVERSED order (smallest key on top), priv B, linked through .node2 */
+    { -1, 0 },          /* reversed, priv C, linked through .node */
+};
+static char privs[MAXH];
+#define OFF_OF(m) (conf[m].nodesel ? offsetof(struct elem, node2) : offsetof(struct elem, node))
+
+struct cfg { int nh, nk, np, maxlen, cmpscale, light; };
 static struct cfg scopetab[40];
 static const struct cfg *C;
 
@@ -47,6 +66,7 @@ static int mi[MAXH];                    /* heap object -> model index (swap exch
 static struct elem *M[MAXH][MAXE];      /* model: multiset of held element addresses */
 static int Mn[MAXH];
 static int cnt[MAXH][MAXE];             /* model: held elements per priority */
+static int best[MAXH];                  /* model: top priority in the heap's own order, -1 = empty */
 static struct elem *posmap[MAXH][MAXE]; /* per heap object: element at level-order position (last walk) */
 static int lastkind[MAXH];              /* previous mutating op per heap object (coverage) */
 static int freehead[MAXE];              /* per priority: free elements */
@@ -54,7 +74,6 @@ static int hb[HTAB], hsize;             /* address -> pool element */
 static uint32_t wstamp;
 static int cur_model = -1;              /* model of the heap the library is working on */
 static struct elem *cur_push;
-static char cmp_priv;
 static int is_clear_mode;
 
 enum { K_PUSH = 1, K_POP, K_GET, K_CLEAR, K_SWAP, K_NKINDS };
@@ -112,24 +131,34 @@ static void give_back(struct elem *e)
 {
     /* the element is the caller's again: whatever the node held is garbage now */
     memset(&e->node, 0x5e, sizeof(e->node));
+    memset(&e->node2, 0x5e, sizeof(e->node2));
     e->where = -1; e->slot = -1; e->pos = -1;
     e->nextfree = freehead[e->key]; freehead[e->key] = e->id;
 }
 
-static int cmp_prio(const void *a, const void *b, void *p)
+static int cmp_common(const void *a, const void *b, void *p, int dir)
 {
     const struct elem *x = a, *y = b;
-    VRT_CHECK(p == (void *)&cmp_priv, "heap.cmp.priv", "comparison called with wrong priv %p", p);
+    int sgn;
+    VRT_CHECK(cur_model >= 0, "heap.cmp.outside-call", "comparison called while no heap operation is in progress");
+    VRT_CHECK(p == (void *)&privs[cur_model], "heap.cmp.priv",
+              "comparison called with priv %p, the heap operated on was configured with %p", p, (void *)&privs[cur_model]);
+    VRT_CHECK(dir == conf[cur_model].dir, "heap.cmp.wrong-function",
+              "the %s comparator was called for a heap configured with the %s one", dir > 0 ? "forward" : "reversed",
+              dir > 0 ? "reversed" : "forward");
     VRT_CHECK(x->magic == MAGIC && y->magic == MAGIC, "heap.cmp.non-element", "comparison called with a non-element");
     VRT_CHECK((x->where == cur_model || x == cur_push) && (y->where == cur_model || y == cur_push),
               "heap.cmp.non-member", "comparison called with an element that is neither in the heap nor being pushed");
     VRT_COUNT("cmp.calls");
+    sgn = dir * ((x->key > y->key) - (x->key < y->key));
     /* only the sign of the result is specified: scale 7 stands for "magnitude unrelated to the
      * distance between the priorities" (as with strcmp-like or multi-key comparators) */
     if (C->cmpscale == 7)
-        return ((x->key > y->key) - (x->key < y->key)) * (1 + (x->id * 131 + y->id * 31) % 997);
-    return ((x->key > y->key) - (x->key < y->key)) * C->cmpscale;
+        return sgn * (1 + (x->id * 131 + y->id * 31) % 997);
+    return sgn * C->cmpscale;
 }
+static int cmp_fwd(const void *a, const void *b, void *p) { return cmp_common(a, b, p, +1); }
+static int cmp_rev(const void *a, const void *b, void *p) { return cmp_common(a, b, p, -1); }
 
 static void st_create(int scope)
 {
@@ -141,10 +170,12 @@ static void st_create(int scope)
     /* highest id first so that the lowest id of a priority is taken first */
     for (i = C->np - 1; i >= 0; i--) new_elem(i, i % C->nk);
     for (i = 0; i < C->nh; i++) {
+        cstl_compare_func_t * const cf = conf[i].dir > 0 ? cmp_fwd : cmp_rev;
         /* both documented ways of making a heap: the init function and (every other time) the static initialiser */
-        if (++init_toggle & 1) cstl_heap_init(&H[i], cmp_prio, &cmp_priv, NODE_OFF);
-        else H[i] = (struct cstl_heap)CSTL_HEAP_INITIALIZER(struct elem, node, cmp_prio, &cmp_priv);
-        mi[i] = i; Mn[i] = 0; lastkind[i] = 0;
+        if (++init_toggle & 1) cstl_heap_init(&H[i], cf, &privs[i], OFF_OF(i));
+        else if (conf[i].nodesel) H[i] = (struct cstl_heap)CSTL_HEAP_INITIALIZER(struct elem, node2, cf, &privs[i]);
+        else H[i] = (struct cstl_heap)CSTL_HEAP_INITIALIZER(struct elem, node, cf, &privs[i]);
+        mi[i] = i; Mn[i] = 0; lastkind[i] = 0; best[i] = -1;
         memset(cnt[i], 0, sizeof(cnt[i][0]) * C->nk);
     }
     cur_model = -1; cur_push = NULL;
@@ -155,21 +186,29 @@ static void st_destroy(void)
     for (i = 0; i < C->np; i++) { vrt_free(pool[i]); pool[i] = NULL; }
 }
 
+/* top priority of model m in its own order: tracker, cross-checked against a plain scan for small priority sets */
 static int model_max(int m)
 {
-    int k;
-    for (k = C->nk - 1; k >= 0; k--) if (cnt[m][k] > 0) return k;
-    return -1;
+    if (C->nk <= 64) {
+        int k, scan = -1;
+        if (conf[m].dir > 0) { for (k = C->nk - 1; k >= 0; k--) if (cnt[m][k] > 0) { scan = k; break; } }
+        else { for (k = 0; k < C->nk; k++) if (cnt[m][k] > 0) { scan = k; break; } }
+        VRT_CHECK(scan == best[m], "harness.model.max-tracker", "model %d: tracker says %d, scan says %d", m, best[m], scan);
+    }
+    return best[m];
 }
 static void model_add(int m, struct elem *e)
 {
     e->where = m; e->slot = Mn[m]; M[m][Mn[m]++] = e; cnt[m][e->key]++;
+    if (best[m] < 0 || conf[m].dir * (e->key - best[m]) > 0) best[m] = e->key;
 }
 static void model_del(int m, struct elem *e)
 {
     struct elem *last = M[m][--Mn[m]];
     M[m][e->slot] = last; last->slot = e->slot;
     cnt[m][e->key]--;
+    if (Mn[m] == 0) best[m] = -1;
+    else while (cnt[m][best[m]] == 0) best[m] -= conf[m].dir;
 }
 
 static int depth_of(size_t pos)
@@ -185,7 +224,7 @@ static void walk_node(int h, const struct cstl_bintree_node *n, const struct cst
                       size_t pos, size_t size, const char *after)
 {
     const int m = mi[h];
-    struct elem *e = lookup((const char *)n - NODE_OFF);
+    struct elem *e = lookup((const char *)n - OFF_OF(m));
     const size_t l = 2 * pos + 1, r = 2 * pos + 2;
 
     if (e == NULL || e->magic != MAGIC)
@@ -196,14 +235,23 @@ static void walk_node(int h, const struct cstl_bintree_node *n, const struct cst
     if (e->stamp == wstamp)
         FAIL2("heap.walker.node-twice.after-%s%s", after, "", "heap %d: element %d reached twice (positions %d and %zu)", h, e->id, e->pos, pos);
     e->stamp = wstamp; e->pos = (int)pos; posmap[h][pos] = e; wcount++;
+    {
+        /* nothing but the node member this heap was configured with may have been written */
+        uint64_t o[3];
+        _Static_assert(sizeof(struct cstl_heap_node) == sizeof(o), "node is three pointers");
+        memcpy(o, conf[m].nodesel ? &e->node : &e->node2, sizeof(o));
+        if (o[0] != PADV || o[1] != PADV || o[2] != PADV || e->pad0 != PADV || e->padm != PADV || e->pad1 != PADV)
+            FAIL2("heap.walker.wrote-outside-node.after-%s%s", after, "", "heap %d: element %d at position %zu was written outside the node member the heap links through",
+                  h, e->id, pos);
+    }
     if (n->p != parent)
         FAIL2("heap.walker.parent-link.after-%s%s", after, "", "heap %d size %zu: parent link of the node at position %zu does not point to the node at %zu",
               h, size, pos, pos ? (pos - 1) / 2 : 0);
     if (parent != NULL) {
         const struct elem *pe = posmap[h][(pos - 1) / 2];
-        if (e->key > pe->key)
-            FAIL2("heap.walker.child-greater.after-%s%s", after, "", "heap %d size %zu: priority %d at position %zu above its parent's %d",
-                  h, size, e->key, pos, pe->key);
+        if (conf[m].dir * (e->key - pe->key) > 0)
+            FAIL2("heap.walker.child-greater.after-%s%s", after, "", "heap %d size %zu (%s order): priority %d at position %zu beats its parent's %d",
+                  h, size, conf[m].dir > 0 ? "forward" : "reversed", e->key, pos, pe->key);
     }
     if (l < size) {
         if (n->l == NULL)
@@ -230,10 +278,11 @@ static void check_top(int m, const void *ret, const char *entry, const char *aft
     if (e->where != m)
         FAIL2("heap.%s.not-held%s", entry, after, "%s returned element %d which is not in this heap (model says %d)", entry, e->id, e->where);
     if (e->key != mx)
-        FAIL2("heap.%s.not-max%s", entry, after, "%s returned priority %d while priority %d is held (size %d)", entry, e->key, mx, Mn[m]);
+        FAIL2("heap.%s.not-max%s", entry, after, "%s returned priority %d while priority %d is held (size %d, %s order)", entry, e->key, mx, Mn[m],
+              conf[m].dir > 0 ? "forward" : "reversed");
 }
 
-static void audit_heap(int h, const char *after)
+static void audit_heap(int h, const char *after, int full)
 {
     const int m = mi[h];
     const size_t size = (size_t)Mn[m];
@@ -254,6 +303,7 @@ static void audit_heap(int h, const char *after)
         if (g == NULL) FAIL2("heap.get.null-on-nonempty.after-%s%s", after, "", "get on heap %d holding %zu returned NULL", h, size);
         check_top(m, g, "get", aft);
         if (root == NULL) FAIL2("heap.walker.not-complete.after-%s%s", after, "", "heap %d holds %zu but has no root node", h, size);
+        if (!full) { VRT_COUNT("audit.light"); return; }
         wstamp++; wcount = 0;
         walk_node(h, root, NULL, 0, size, after);
         if (wcount != size)
@@ -264,8 +314,10 @@ static void audit_heap(int h, const char *after)
 static void audit_all(const char *after)
 {
     int h;
-    for (h = 0; h < C->nh; h++) audit_heap(h, after);
+    for (h = 0; h < C->nh; h++) audit_heap(h, after, 1);
 }
+/* after an op on heap h: full audit of everything, or (large heaps) the O(1) checks on h only */
+#define AFTER(audit, h, name) do { if (audit) audit_all(name); else if (C->light) audit_heap(h, name, 0); } while (0)
 
 /* element at a level-order position by reading the links (coverage accounting only) */
 static struct elem *peek_at(int h, size_t pos)
@@ -274,17 +326,17 @@ static struct elem *peek_at(int h, size_t pos)
     size_t loc = pos + 1, b;
     for (b = 1; b * 2 <= loc; b *= 2) ;
     for (b >>= 1; n != NULL && b != 0; b >>= 1) n = (loc & b) ? n->r : n->l;
-    return n ? lookup((const char *)n - NODE_OFF) : NULL;
+    return n ? lookup((const char *)n - OFF_OF(mi[h])) : NULL;
 }
 
-static int bucket_ids[2][12];
+static int bucket_ids[2][18];
 static void count_bucket(int which, int size)
 {
     static int init;
     int b = 0;
     if (!init) {
         int k;
-        for (k = 0; k < 12; k++) {
+        for (k = 0; k < 18; k++) {
             char nm[64];
             snprintf(nm, sizeof(nm), "pop.size-before.%d-%d", 1 << k, (2 << k) - 1);
             bucket_ids[0][k] = vrt_counter_id(nm);
@@ -293,7 +345,7 @@ static void count_bucket(int which, int size)
         }
         init = 1;
     }
-    while ((2 << b) <= size && b < 11) b++;
+    while ((2 << b) <= size && b < 17) b++;
     vrt_ctr[bucket_ids[which][b]]++;
 }
 
@@ -343,6 +395,7 @@ static int st_apply(uint32_t op, int audit)
         if (lastkind[h1] == K_POP) VRT_COUNT("push.right-after.pop");
         if (sizeb > 0) count_bucket(1, sizeb);
         lastkind[h1] = kind;
+        AFTER(0, h1, "push");
         if (audit) {
             audit_all("push");
             /* how far did the new element rise (walker positions) */
@@ -375,7 +428,7 @@ static int st_apply(uint32_t op, int audit)
         if (sizeb == 0) {
             VRT_CHECK(r == NULL, "heap.pop.empty-not-null", "pop on empty heap returned %p", r);
             VRT_COUNT("op.pop.empty");
-            if (audit) audit_all("pop-empty");
+            AFTER(audit, h1, "pop-empty");
             return 1;
         }
         VRT_CHECK(r != NULL, "heap.pop.null-on-nonempty", "pop on a heap holding %d returned NULL", sizeb);
@@ -393,6 +446,7 @@ static int st_apply(uint32_t op, int audit)
         if (lastkind[h1] == K_PUSH) VRT_COUNT("pop.right-after.push");
         count_bucket(0, sizeb);
         lastkind[h1] = kind;
+        AFTER(0, h1, "pop");
         if (audit) {
             audit_all("pop");
             /* where did the former last element end up (walker positions) */
@@ -432,7 +486,7 @@ static int st_apply(uint32_t op, int audit)
             check_top(m, g, "get", "");
             VRT_COUNT("op.get");
         }
-        if (audit) audit_all("get");
+        AFTER(audit, h1, "get");
         return 1;       /* not mutating: lastkind unchanged */
     }
     case K_CLEAR:
@@ -443,23 +497,26 @@ static int st_apply(uint32_t op, int audit)
         cstl_heap_clear(&H[h1], clear_cb);
         cur_model = -1;
         VRT_CHECK(clear_seen == sizeb, "heap.clear.count", "clear handed over %d of %d elements", clear_seen, sizeb);
-        Mn[m] = 0;
+        Mn[m] = 0; best[m] = -1;
         memset(cnt[m], 0, sizeof(cnt[m][0]) * C->nk);
         VRT_COUNT("op.clear");
         if (sizeb > 0) VRT_COUNT("op.clear.nonempty");
         VRT_MAX("max.clear.elements", sizeb);
         lastkind[h1] = kind;
-        if (audit) audit_all("clear");
+        AFTER(audit, h1, "clear");
         return 1;
     case K_SWAP: {
         int t;
         if (h2 >= C->nh || h1 == h2) return 0;
-        vrt_state(sizeb == 0 || Mn[mi[h2]] == 0 ? "one-empty" : "both");
+        vrt_state(sizeb == 0 && Mn[mi[h2]] == 0 ? "both-empty" : sizeb == 0 || Mn[mi[h2]] == 0 ? "one-empty" : "both");
         VRT_OP4("heap.swap", "h%ld (size %ld) <-> h%ld (size %ld)", h1, sizeb, h2, Mn[mi[h2]]);
         cstl_heap_swap(&H[h1], &H[h2]);
         t = mi[h1]; mi[h1] = mi[h2]; mi[h2] = t;
+        /* contents and configuration (order, comparator, priv, node member) change places */
         VRT_COUNT("op.swap");
         if (sizeb != 0 && Mn[mi[h1]] != 0) VRT_COUNT("op.swap.both-nonempty");
+        else if (sizeb == 0 && Mn[mi[h1]] == 0) VRT_COUNT("op.swap.both-empty");
+        else VRT_COUNT("op.swap.one-empty");
         t = lastkind[h1]; lastkind[h1] = lastkind[h2]; lastkind[h2] = t;
         if (audit) audit_all("swap");
         return 1;
@@ -478,6 +535,7 @@ static uint64_t st_sig(void)
     for (h = 0; h < C->nh; h++) {
         const int n = Mn[mi[h]];
         s = vrt_mix(s, 0xfff0 + n);
+        s = vrt_mix(s, 0xc0f0 + mi[h]);        /* which configuration the heap object carries */
         for (i = 0; i < n; i++) s = vrt_mix(s, posmap[h][i]->key + 1);
     }
     return s;
@@ -517,17 +575,17 @@ struct cscope { struct cfg c; uint64_t max_states; int max_depth; };
 /* np == nk: one element per priority (all distinct); np == nk*maxlen*nh: any multiset of priorities */
 static const struct cscope quick_scopes[] = {
     { { 1, 10, 10, 10, 1 }, 1000000, 100 },     /* one heap, 10 distinct priorities: every heap-ordered arrangement */
-    { { 2, 8, 8, 8, 1 }, 1000000, 100 },        /* eight distinct priorities shared by two heaps, swap */
+    { { 2, 7, 7, 7, 1 }, 1000000, 100 },        /* seven distinct priorities shared by two differently configured heaps, swap */
     { { 1, 4, 40, 10, 1000003 }, 1000000, 100 },/* <= 10 x 4 priorities, cmp returns large values */
     { { 2, 3, 30, 5, 1 }, 1000000, 100 },       /* two heaps, <= 5 each x 3 priorities */
-    { { 2, 2, 32, 8, 7 }, 1000000, 100 },       /* two heaps, <= 8 each x 2 priorities */
-    { { 3, 2, 24, 4, 1 }, 1000000, 100 },       /* three heaps, <= 4 each */
+    { { 2, 2, 28, 7, 7 }, 1000000, 100 },       /* two heaps, <= 7 each x 2 priorities */
+    { { 3, 2, 18, 3, 1 }, 1000000, 100 },       /* three heaps (three configurations), <= 3 each */
     { { 1, 3, 36, 12, 1 }, 1000000, 100 },      /* one heap, <= 12 elements x 3 priorities (ties) */
     { { 1, 2, 40, 20, 1 }, 1000000, 100 },      /* <= 20 x 2 priorities: sizes across the 8 and 16 level boundaries */
     { { 1, 1, 70, 70, 1 }, 1000000, 100 },      /* all ties: shapes only, sizes across 32 and 64 */
 };
 static const struct cscope thorough_scopes[] = {
-    { { 2, 3, 42, 7, 1 }, 6000000, 120 },
+    { { 2, 3, 36, 6, 1 }, 6000000, 120 },
     { { 1, 4, 48, 12, 1 }, 6000000, 120 },
     { { 1, 11, 11, 11, 1 }, 6000000, 120 },
     { { 1, 3, 45, 15, 1 }, 6000000, 120 },
@@ -535,13 +593,14 @@ static const struct cscope thorough_scopes[] = {
     { { 1, 5, 50, 10, 1000003 }, 6000000, 120 },
     { { 2, 2, 40, 10, 7 }, 6000000, 120 },
     { { 3, 3, 27, 3, 1 }, 6000000, 120 },
-    { { 3, 2, 30, 5, 1 }, 6000000, 120 },
+    { { 3, 2, 24, 4, 1 }, 6000000, 120 },
     { { 1, 2, 52, 26, 1 }, 6000000, 120 },
     { { 1, 1, 140, 140, 1 }, 6000000, 150 },
 };
 static const struct cscope *scopes;
 static int nscopes;
 #define RANDOM_SLOT 39
+#define BIG_SLOT 38
 
 static int build_alphabet(const struct cfg *c, uint32_t *al)
 {
@@ -591,6 +650,7 @@ static uint64_t state_hash(void)
     for (h = 0; h < C->nh; h++) {
         const int n = Mn[mi[h]];
         s = vrt_mix(s, 0xfff0 + n);
+        s = vrt_mix(s, 0xc0f0 + mi[h]);
         for (i = 0; i < n; i++) s = vrt_mix(s, posmap[h][i]->key + 1);
     }
     return s;
@@ -610,6 +670,7 @@ static void run_random(uint64_t idx)
     if (c->nk == 0 || c->nk > c->np) c->nk = c->np;
     c->maxlen = c->np;
     c->cmpscale = vrt_chance(&g, 1, 3) ? 1000003 : vrt_chance(&g, 1, 2) ? 7 : 1;
+    c->light = 0;
     nops = big ? (vrt_thorough ? 12000 : 6000) : (vrt_thorough ? 4000 : 1500);
     if (big) target = c->np;            /* large pools: fill completely first */
     vrt_case_note("random heaps=%d priorities=%d pool=%d cmpscale=%d ops=%d", c->nh, c->nk, c->np, c->cmpscale, nops);
@@ -655,22 +716,136 @@ static void run_random(uint64_t idx)
     if (big) VRT_COUNT("random.histories.large");
 }
 
+
+/* ---- large heaps: slot navigation beyond 2^16 / 2^17 elements ----
+ * One heap grows to > 2^17 elements (a few thousand priorities: many ties) with pops mixed in
+ * and is drained again with pushes mixed in.  Every call gets the O(1) checks (size, get and pop
+ * against the counting model, membership by address); the full walker runs whenever the size
+ * before or after the call is within 2 of a power of two 2^8..2^17, at the top, now and then in
+ * between and at the end.  Around every such power of two the size is additionally driven back
+ * and forth (5 pops + 5 pushes, twice) so that both push and pop cross 2^k-1 / 2^k / 2^k+1 in
+ * both directions, growing and draining. */
+#define BIG_TOPK 17
+static int near_pow2(int s)
+{
+    int k;
+    for (k = 8; k <= BIG_TOPK; k++) if (s >= (1 << k) - 2 && s <= (1 << k) + 2) return 1;
+    return 0;
+}
+static void big_step(vrt_rng *g, int push)
+{
+    const struct cfg *c = C;
+    const int size = Mn[mi[0]];
+    int audit, k, j;
+    if (push) {
+        k = (int)vrt_below(g, c->nk);
+        for (j = 0; j < c->nk && freehead[(k + j) % c->nk] < 0; j++) ;
+        if (j == c->nk || size >= c->maxlen) push = 0; else k = (k + j) % c->nk;
+    }
+    audit = near_pow2(size) || near_pow2(push ? size + 1 : size - 1);
+    if (audit) VRT_COUNT("big.audit.full-walk");
+    if (push) {
+        if (size == 65535) VRT_COUNT("big.push.at-size-65535");
+        if (size == 65536) VRT_COUNT("big.push.at-size-65536");
+        if (size == 131071) VRT_COUNT("big.push.at-size-131071");
+        if (size == 131072) VRT_COUNT("big.push.at-size-131072");
+        if (size >= 65536) VRT_COUNT("big.push.size>=65536");
+        st_apply(OP(K_PUSH, 0, 0, k), audit);
+    } else {
+        if (size == 65536) VRT_COUNT("big.pop.at-size-65536");
+        if (size == 65537) VRT_COUNT("big.pop.at-size-65537");
+        if (size == 131072) VRT_COUNT("big.pop.at-size-131072");
+        if (size == 131073) VRT_COUNT("big.pop.at-size-131073");
+        if (size >= 65536) VRT_COUNT("big.pop.size>=65536");
+        st_apply(OP(K_POP, 0, 0, 0), audit);
+    }
+    VRT_MAX("max.heap.size", Mn[mi[0]]);
+}
+static void run_big(uint64_t idx)
+{
+    static const int nks[6] = { 3001, 4999, 2000, 1, 0, 64 };
+    static const int scales[3] = { 1, 7, 1000003 };
+    struct cfg *c = &scopetab[BIG_SLOT];
+    char osc_up[BIG_TOPK + 1], osc_dn[BIG_TOPK + 1];
+    vrt_rng g;
+    int top, k, i, rep;
+    uint64_t nops = 0;
+    vrt_rng_seed(&g, vrt_seed, 0xB16000 + idx);
+    memset(osc_up, 0, sizeof(osc_up)); memset(osc_dn, 0, sizeof(osc_dn));
+    c->nh = 1;
+    c->np = 140000;
+    c->nk = nks[idx % 6] ? nks[idx % 6] : c->np;
+    c->maxlen = c->np;
+    c->cmpscale = scales[(idx / 2 + idx) % 3];
+    c->light = 1;
+    top = (1 << BIG_TOPK) + 1500 + (int)vrt_below(&g, 2500);
+    vrt_case_note("large heap: pool=%d priorities=%d cmpscale=%d grow to %d with pops mixed in, drain with pushes mixed in",
+                  c->np, c->nk, c->cmpscale, top);
+    st_create(BIG_SLOT);
+    while (Mn[mi[0]] < top) {
+        const int size = Mn[mi[0]];
+        for (k = 8; k <= BIG_TOPK; k++) if (size == (1 << k) + 2 && !osc_up[k]) break;
+        if (k <= BIG_TOPK) {
+            osc_up[k] = 1;
+            for (rep = 0; rep < 2; rep++) {
+                for (i = 0; i < 5; i++) big_step(&g, 0);
+                for (i = 0; i < 5; i++) big_step(&g, 1);
+            }
+            VRT_COUNT("big.oscillations.growing");
+            continue;
+        }
+        big_step(&g, size == 0 || !vrt_chance(&g, 1, 8));
+        if ((++nops & 0x7fff) == 0) audit_all("big-grow");
+    }
+    audit_all("big-top");
+    vrt_sig(0, vrt_mix(vrt_mix(0xb16, c->nk), (uint64_t)c->cmpscale * 7 + (uint64_t)top));
+    while (Mn[mi[0]] > 0) {
+        const int size = Mn[mi[0]];
+        for (k = 8; k <= BIG_TOPK; k++) if (size == (1 << k) - 2 && !osc_dn[k]) break;
+        if (k <= BIG_TOPK) {
+            osc_dn[k] = 1;
+            for (rep = 0; rep < 2; rep++) {
+                for (i = 0; i < 5; i++) big_step(&g, 1);
+                for (i = 0; i < 5; i++) big_step(&g, 0);
+            }
+            VRT_COUNT("big.oscillations.draining");
+            continue;
+        }
+        big_step(&g, vrt_chance(&g, 1, 16));
+        if ((++nops & 0x7fff) == 0) audit_all("big-drain");
+    }
+    st_apply(OP(K_POP, 0, 0, 0), 1);
+    st_apply(OP(K_GET, 0, 0, 0), 1);
+    /* refill a little and hand the rest to clear */
+    for (i = 0; i < 300; i++) big_step(&g, 1);
+    st_apply(OP(K_CLEAR, 0, 0, 0), 1);
+    audit_all("big-end");
+    st_destroy();
+    VRT_COUNT("big.histories");
+}
+
+static uint64_t nbig(void)
+{
+    if (is_clear_mode) return 0;
+    return vrt_thorough ? 6 : 2;
+}
 static uint64_t nrandom(void)
 {
     if (is_clear_mode) return vrt_thorough ? 4000 : 400;
-    return vrt_thorough ? 16000 : 2400;
+    return vrt_thorough ? 16000 : 2000;
 }
 static uint64_t ncases(void)
 {
     is_clear_mode = strcmp(vrt_mode, "clear") == 0;
     if (vrt_thorough) { scopes = thorough_scopes; nscopes = sizeof(thorough_scopes) / sizeof(scopes[0]); }
     else { scopes = quick_scopes; nscopes = sizeof(quick_scopes) / sizeof(scopes[0]); }
-    return nscopes + nrandom();
+    return nscopes + nbig() + nrandom();
 }
 static void run_case(uint64_t idx)
 {
     if (idx < (uint64_t)nscopes) run_closure((int)idx);
-    else run_random(idx - nscopes);
+    else if (idx < nscopes + nbig()) run_big(idx - nscopes);
+    else run_random(idx - nscopes - nbig());
 }
 static void winit(void)
 {
@@ -682,6 +857,10 @@ static void winit(void)
 
 static const char *const required[] = {
     "op.push", "op.pop", "op.pop.empty", "op.get", "op.get.empty", "op.clear.nonempty", "op.swap.both-nonempty",
+    "op.swap.both-empty", "op.swap.one-empty",
+    "big.histories", "big.push.at-size-65535", "big.push.at-size-65536", "big.push.at-size-131071", "big.push.at-size-131072",
+    "big.pop.at-size-65536", "big.pop.at-size-65537", "big.pop.at-size-131072", "big.pop.at-size-131073",
+    "big.oscillations.growing", "big.oscillations.draining", "big.audit.full-walk", "audit.light",
     "pop.last-is-root", "pop.last-is-root-left-child", "pop.last-is-root-right-child", "pop.last-left", "pop.last-right",
     "pop.sift-down.0", "pop.sift-down.1", "pop.sift-down.2+", "pop.sift-down.first-step-left", "pop.sift-down.first-step-right",
     "pop.root-children-tied", "pop.sift-down.to-leaf",
